@@ -135,6 +135,137 @@ def behaviours(chk, steps, simulate=0):
     return behs
 
 
+PYTEST_TEST = '''
+import importlib, json, os, sys
+def test_it():
+    import verif_spy
+    out = {}
+    for m in json.loads(os.environ["VERIF_IMPORTS"]):
+        importlib.import_module(m)
+    for m in %r:
+        if m in sys.modules:
+            mod = sys.modules[m]
+            who = sorted({c for c, mm in verif_spy.LOG if mm == m})
+            out[m] = who[0] if len(who) == 1 else ("plain" if not who else "both")
+    json.dump(out, open(os.environ["VERIF_OUT"], "w"))
+'''
+
+
+def pytest_route(chk):
+    """the same scoping rule through `pytest --jaxtyping-packages=...` (sub-processes)"""
+    import subprocess
+    from concurrent.futures import ThreadPoolExecutor
+    from .common import PY
+    root = tempfile.mkdtemp(prefix="verif_c11p_")
+    try:
+        for rel, pre in TREE.items():
+            p = os.path.join(root, rel)
+            os.makedirs(os.path.dirname(p), exist_ok=True)
+            open(p, "w").write(pre + BODY)
+        open(os.path.join(root, "verif_spy.py"), "w").write(SPY)
+        open(os.path.join(root, "test_it.py"), "w").write(PYTEST_TEST % (MODNAMES,))
+        configs = [(["foo"], "A", ["foo.mod", "foo_x"]), (["foo.sub", "foo_x"], "B", ["plain", "foo_x", "foo.mod"]),
+                   (["foobar.mod"], "A", ["foo.mod"]), (["foo", "foobar"], "B", ["foo.sub.leaf", "foobar.mod", "plain"]),
+                   (["plain"], "A", ["plain"])]
+
+        def expected(names, c, imports):
+            # the specification's Matches on segment sequences, for a single hook installed before any import
+            segs = [n.split(".") for n in names]
+            loaded = {}
+
+            def load(m):
+                if m in loaded:
+                    return
+                parts = m.split(".")
+                for i in range(1, len(parts)):
+                    load(".".join(parts[:i]))
+                loaded[m] = c if any(parts[:len(s)] == s for s in segs) else "plain"
+                for rel, pre in TREE.items():
+                    if rel.replace("/__init__.py", "").replace(".py", "").replace("/", ".") == m and pre:
+                        load(pre.split()[1])
+            for m in imports:
+                load(m)
+            return loaded
+
+        def one(cfg):
+            names, c, imports = cfg
+            out = os.path.join(root, f"out_{abs(hash(str(cfg)))}.json")
+            env = dict(os.environ, PYTHONPATH=os.environ.get("VERIF_REPO", "/repo") + os.pathsep + root, VERIF_IMPORTS=json.dumps(imports),
+                       VERIF_OUT=out)
+            p = subprocess.run([PY, "-m", "pytest", "-q", "-p", "no:cacheprovider", 
+                                f"--jaxtyping-packages={','.join(names)},verif_spy.{c}", os.path.join(root, "test_it.py")],
+                               cwd=root, env=env, capture_output=True, text=True, timeout=600)
+            got = json.load(open(out)) if os.path.exists(out) else {"error": (p.stdout + p.stderr)[-300:]}
+            return cfg, got
+        with ThreadPoolExecutor(max_workers=5) as ex:
+            res = list(ex.map(one, configs))
+        for (names, c, imports), got in res:
+            exp = expected(names, c, imports)
+            if got != exp:
+                chk.disagree(f"C11:pytest-option:{','.join(names)}/{c}:imports={imports}", {"expected": exp, "observed": got})
+        chk.part("pytest_option", configurations=len(configs))
+        return len(configs)
+    finally:
+        shutil.rmtree(root, ignore_errors=True)
+
+
+def ipython_route(chk):
+    """the IPython magic: JtMagic behaviours replayed on a real InteractiveShell"""
+    import ast
+    wd = chk.workdir
+    cfg = os.path.join(wd, "magic.cfg")
+    tlc.write_cfg(cfg, spec="Spec", constants={"MaxSteps": 4}, invariants=["AtMostOne"], constraints=["Emit"])
+    res = tlc.run("JtMagic", cfg, wd, workers=2)
+    chk.add_tlc("JtMagic", res)
+    behs = [json.loads(v[1]) for v in res.printed() if isinstance(v, list) and len(v) == 2 and v[0] == "BEH"]
+    if not behs:
+        raise MachineryFailure("no JtMagic behaviours:\n" + res.tail())
+    root = tempfile.mkdtemp(prefix="verif_c11i_")
+    try:
+        open(os.path.join(root, "verif_spy.py"), "w").write(SPY)
+        sys.path.insert(0, root)
+        import verif_spy
+        from IPython.core.interactiveshell import InteractiveShell
+        from jaxtyping._import_hook import JaxtypingTransformer
+
+        class Other(ast.NodeTransformer):
+            pass
+        sh = InteractiveShell.instance()
+        sh.run_line_magic("load_ext", "jaxtyping")
+        n = 0
+        for b in behs:
+            sh.ast_transformers = []
+            obs = []
+            for a in b["hist"]:
+                if a["op"] == "other":
+                    sh.ast_transformers.append(Other())
+                    obs.append("ok")
+                elif a["op"] == "magic":
+                    sh.run_line_magic("jaxtyping.typechecker", "None" if a["c"] == "None" else "verif_spy." + a["c"])
+                    obs.append("ok")
+                else:
+                    verif_spy.LOG.clear()
+                    n += 1
+                    r = sh.run_cell(f"def cellfn{n}(x: int):\n    return x\n", store_history=False)
+                    f = sh.user_ns.get(f"cellfn{n}")
+                    who = sorted({c for c, _ in verif_spy.LOG})
+                    o = who[0] if len(who) == 1 else ("both" if who else ("None" if hasattr(f, "__wrapped__") else "plain"))
+                    if not r.success:
+                        o = "cell-failed"
+                    obs.append(o)
+            njt = sum(isinstance(t, JaxtypingTransformer) for t in sh.ast_transformers)
+            if obs != b["obs"] or njt > 1:
+                chk.disagree("C11:ipython:" + ";".join(a["op"] + a.get("c", "") for a in b["hist"]),
+                             {"expected": b["obs"], "observed": obs, "jaxtyping_transformers": njt})
+        chk.part("ipython_magic", behaviours=len(behs))
+        return len(behs)
+    finally:
+        if root in sys.path:
+            sys.path.remove(root)
+        sys.modules.pop("verif_spy", None)
+        shutil.rmtree(root, ignore_errors=True)
+
+
 def main(tier):
     chk = Check("C11", tier)
     try:
@@ -155,6 +286,8 @@ def main(tier):
                                                    else ".".join(a["mod"]) if a["op"] == "import" else str(a["id"])) for a in b["program"])
                 chk.disagree(f"C11:{prog}", b)
         n = sum(o[1] for o in outs)
+        n += pytest_route(chk)
+        n += ipython_route(chk)
         chk.cov["traces_validated_against_impl"] = n
         chk.cov["evaluations"] = n
         chk.cov["distinct_nontrivial"] = sum(1 for b in allb if any(isinstance(o, dict) and any(v != "plain" for v in o.values())
@@ -163,7 +296,8 @@ def main(tier):
         chk.cov["rule"] = ("all %d behaviours of 3 actions, %d of the %d behaviours of 4 actions, %d simulated behaviours of 8 actions; "
                            "non-trivial = behaviours in which at least one module was instrumented" % (len(b3), len(b4), n4, len(sims)))
         chk.sample({"program": b4[0]["hist"], "expected_obs": b4[0]["obs"]})
-        chk.assumptions += ["API route only (install_import_hook); the pytest option and the IPython magic call the same finder / transformer",
+        chk.assumptions += ["the pytest option is driven for 5 single-hook configurations in sub-processes; the IPython magic through JtMagic "
+                            "behaviours on a real InteractiveShell (the string 'None' is what the magic passes for no checker)",
                             "instrumentation is observed through spy typecheckers (who decorated which module) and through "
                             "ill-typed calls", "bytecode caches are off here (C18 covers them)"]
     except MachineryFailure as e:
